@@ -552,6 +552,11 @@ def gen(rng, idx):
             else:
                 ops.append({'op': 'env', 'what': 'bus_raises', 'on': rng.random() < 0.6})
             listing_ops = []
+    # ports that are enumerated but cannot be opened (held by another program): discovery is by descriptor only
+    # (drawn last so that the rest of the scenario is the one the same seed gave before)
+    for b in boards:
+        if rng.random() < 0.08:
+            b['open_fails'] = True
     mk_ops(ops)
     # listing references were recorded by position; rewrite them to op ids
     for op in ops:
@@ -620,6 +625,21 @@ def history_scenarios(style):
             o['look'] = {'kind': 'tag', 'target': pb}
             ops.append(o)
             yield {'prop': PROP, 'world': {'boards': [first, later]}, 'ops': mk_ops(ops), 'faults': {}, 'snap_dev': False}
+    # H5: the first board is enumerated but cannot be opened (another program holds it): it is still the first
+    for first_ok in (False, True):
+        boards = [dict(ebb(pa, 'Alpha_1', '1-1'), open_fails=not first_ok), ebb(pb, 'Beta_22', '1-2')]
+        if first_ok:
+            boards.insert(1, dict(ebb(ports[2], 'Mid_7', '1-3'), open_fails=True))
+        f1 = lcall('ebb_serial.find_named_ebb', ['Alpha_1'])
+        f1['look'] = {'kind': 'tag', 'target': pa}
+        f2 = lcall('ebb3_serial.find_named', ['alpha_1'])
+        f2['look'] = {'kind': 'tag', 'target': pa}
+        ops = [lcall('ebb_serial.findPort'), {'op': 'new', 'obj': 0}, call(0, 'find_first'),
+               lcall('ebb_serial.listEBBports'), lcall('ebb3_serial.list_ebb_ports'),
+               lcall('ebb_serial.list_named_ebbs'), lcall('ebb3_serial.list_named_ebbs'), f1, f2,
+               lcall('ebb_serial.openPort', [], store=72), lcall('ebb_serial.closePort', [{'slot': 72}]),
+               call(0, 'connect'), call(0, 'disconnect'), lcall('ebb_serial.findPort'), call(0, 'find_first')]
+        yield {'prop': PROP, 'world': {'boards': boards}, 'ops': mk_ops(ops), 'faults': {}, 'snap_dev': False}
     # H3: end to end on one object: connect by name, disconnect, names swap, connect by the same name again
     boards = [ebb(pa, 'Alpha_1', '1-1'), ebb(pb, 'Beta_22', '1-2')]
     c1 = call(0, 'connect', ['Alpha_1'])
